@@ -194,6 +194,8 @@ META["C23"] = E("compiler sanitizers and an undefined-behaviour interpreter over
     "and under Miri (4 histories quick, 80 thorough: use-after-free, out-of-bounds, invalid borrows, data races, and memory still allocated "
     "after the database was dropped are reported). Every reference returned by a tracked function is remembered with its value and re-read "
     "just before the next mutable borrow. Thorough adds OS-thread workloads (readers, cycles, writer+readers, cancellation, injected panics) "
-    "under ASan and valgrind memcheck on the native binary.",
+    "under ASan, valgrind memcheck on the native binary, and 2 OS-thread cases interpreted by Miri under 12 interpreter seeds each "
+    "(data races and UB in salsa's unsafe code with different preemption points and weak-memory outcomes; a planted Relaxed publication "
+    "of memo pointers is reported as a data race).",
     "Trusted base: rustc's AddressSanitizer runtime, Miri, valgrind; the harness's retention list. A clean run is not memory safety (see assumptions).",
-    "E-single under native / ASan / Miri (+ E-os, E-fault under ASan, memcheck in thorough)")
+    "E-single under native / ASan / Miri (+ E-os under ASan and Miri, E-fault under ASan, memcheck in thorough)")
